@@ -14,6 +14,11 @@ func check[T any](cl fp.Clone[T], v T, l string) {
 	c := cl.Clone(v)
 	zz.Assert(zz.DeepEq(v, c), l+": clone is structurally equal to the original")
 	zz.Assert(zz.Disjoint(v, c), l+": clone shares no mutable storage with the original")
+	// the instance is a function of its input: a second clone through the same instance is again an equal copy and
+	// shares nothing with the original or with the first clone
+	c2 := cl.Clone(v)
+	zz.Assert(zz.DeepEq(v, c2), l+": second clone through the same instance is structurally equal to the original")
+	zz.Assert(zz.Disjoint(v, c2) && zz.Disjoint(c, c2), l+": second clone shares nothing with the original or the first clone")
 }
 
 var gi = clone.Given[int]()
